@@ -36,7 +36,7 @@ static _Bool nv_state_update_along(struct nv_state* s, const struct nv_state* s0
 {
   nv_ver_counter = nv_ver_counter + 1;
   s->ver = nv_ver_counter; s->eval_ver = s->ver; s->origin = s0->ver; s->t = t;
-  s->valid = nv_nondet__Bool(); s->m_fx = nv_nondet_double(); s->dg = nv_nondet_double(); s->gtest = nv_nondet_double();
+  s->valid = nv_nondet__Bool(); s->m_fx = nv_nondet_double(); s->dg = nv_nondet_double(); s->gtest = nv_nondet_double(); s->feas = nv_nondet_double(); s->cons_ver = s->ver;
   s->m_fcalls = nv_nondet_int64_t(); s->m_gcalls = nv_nondet_int64_t();
   return s->valid;
 }
